@@ -57,6 +57,27 @@ def main():
             names.append(args[i])
             i += 1
     sroot = os.path.join(ROOT, "seeded")
+    if "--from-meta" in names:
+        # compose the table from the confirmations that earlier runs of this tool stored in seeded/<name>/meta.json
+        names = sorted(d for d in os.listdir(sroot) if os.path.isdir(os.path.join(sroot, d)))
+        missed = 0
+        with open(outp or os.path.join(ROOT, "SEEDED.md"), "w") as f:
+            f.write("# Seeded changes (written by independent sub-agents) against the registered checks, quick tier, corpus disabled\n\n")
+            f.write("Composed by `tools/seeded.py --from-meta` from the per-change confirmations in `seeded/<name>/meta.json` (each written by a run of "
+                    "`VF_NO_CORPUS=1 tools/seeded.py <name>`).\n\n")
+            f.write("| seeded change | property | what was changed | needs | demo exit clean/seeded | check | first signature reported |\n|---|---|---|---|---|---|---|\n")
+            for name in names:
+                meta = json.load(open(os.path.join(sroot, name, "meta.json")))
+                c = meta.get("confirmed_by_me") or {}
+                status = c.get("check_result", "?")
+                missed += status != "caught"
+                f.write("| %s | %s | %s | %s | %s / %s | %s | %s |\n" % (
+                    name, meta["property"], str(meta.get("summary", "")).replace("|", "/").replace("\n", " ")[:300],
+                    str(meta.get("needs", "")).replace("|", "/").replace("\n", " ")[:300], c.get("demo_exit_clean_tree", "?"), c.get("demo_exit_with_change", "?"),
+                    status, str(c.get("first_signature", "")).replace("|", "/")))
+            f.write("\n%d seeded changes, %d not caught by their property's check\n" % (len(names), missed))
+        print("%d seeded changes, %d not caught (from meta)" % (len(names), missed))
+        return 0
     if not names:
         names = sorted(d for d in os.listdir(sroot) if os.path.isdir(os.path.join(sroot, d)))
     bad = 0
